@@ -204,6 +204,7 @@ pub struct HostedSys {
     sim: Sim,
     in_tx: Option<ByteWriter>,
     out_rx: Option<ByteReader>,
+    #[allow(dead_code)]
     pub shared: Arc<HostShared>,
     pub setup_error: Option<String>,
 }
